@@ -593,6 +593,20 @@ def esc_bytes(bs):
 
 def replay_cex(cex, repo):
     """run the verifier's counterexample against the real crate (replay runner), return what was observed"""
+    if cex and str(cex.get("function", "")).endswith("::grow_to"):
+        kind = {"StdPolicy::grow_to": "std", "DoubleUntil::grow_to": "du"}.get(cex["function"], "dul")
+        args = ["policy", kind, str(cex["current_size"])]
+        if kind != "std":
+            args.append(str(cex["double_until"]))
+        if kind == "dul":
+            args.append(str(cex["limit"]))
+        r = sh([os.path.join(VERIF, "replay", "run.sh"), "--repo", repo] + args)
+        obs = [l for l in r.stdout.split("\n") if l.startswith("grow_to(")]
+        rep = False
+        if obs:
+            m = re.match(r"grow_to\(\d+\) -> (.*?)\s+documented: (.*)$", obs[0])
+            rep = bool(m) and m.group(1).strip() != m.group(2).strip()
+        return dict(arguments=cex, observed=obs[:1], reproduced=rep)
     if not cex or cex.get("function") != "trim_cr":
         return None
     line = cex["line"]
@@ -712,7 +726,7 @@ def main():
     return rc
 
 
-KANI_QUICK = {"C12", "C13"}
+KANI_QUICK = {"C09", "C12", "C13"}
 
 
 def claimed_props():
